@@ -208,7 +208,7 @@ def run_symbolic(c, cfg, xs=None, t0=0.0, nsteps=None, ctl=None):
             if cfg.get('xrange'):
                 c.add(z3.And(x >= rv(cfg['xrange'][0]), x <= rv(cfg['xrange'][1])))
     u0 = sp.mkmesh(P, [SymReal(x) for x in xs])
-    nsteps = nsteps if nsteps is not None else cfg['NP'] * cfg.get('blocks', 1)
+    nsteps = nsteps if nsteps is not None else cfg.get('nsteps', cfg['NP'] * cfg.get('blocks', 1))
     uend, stats = ctl.run(u0, t0, t0 + cfg['dt'] * nsteps)
     return ctl, A, uend, stats, xs
 
